@@ -1155,7 +1155,7 @@ class SymSeq:
             return SymSeq(self.kind, [self.items[0]] + rest.items)
         return self._pad(width, "0" if self.kind == "str" else b"0", True)
 
-    def _blank_cond(self, u, chars):
+    def _blank_cond(self, u, chars, side="left"):
         """SymBool|bool|None: unit u is one of the characters to strip (None: cannot tell)"""
         if chars is None:
             if isinstance(u, Hx):
@@ -1165,9 +1165,17 @@ class SymSeq:
             t = u.t
             if self.kind == "bytes":
                 return mk_bool(z3.Or(t == 32, z3.And(z3.UGE(t, 9), z3.ULE(t, 13))))
+            asc = z3.Or(t == 32, z3.And(z3.UGE(t, 9), z3.ULE(t, 13)), z3.And(z3.UGE(t, 28), z3.ULE(t, 31)))
             if not u.ascii:
-                return None
-            return mk_bool(z3.Or(t == 32, z3.And(z3.UGE(t, 9), z3.ULE(t, 13)), z3.And(z3.UGE(t, 28), z3.ULE(t, 31))))
+                # UTF-8 code units: a Unicode blank starts with C2/E1/E2/E3 and ends with one of a few continuation bytes;
+                # any other non-ASCII unit is certainly not (part of) a blank at the edge of the text
+                if side == "left":
+                    maybe = z3.Or(t == 0xC2, t == 0xE1, t == 0xE2, t == 0xE3)
+                else:
+                    maybe = z3.Or(t == 0x85, t == 0xA0, z3.And(z3.UGE(t, 0x80), z3.ULE(t, 0x8A)), t == 0xA8, t == 0xA9, t == 0xAF, t == 0x9F)
+                if bool(mk_bool(maybe)):
+                    raise Unsupported("strip() of text that may start or end with a non-ASCII blank")
+            return mk_bool(asc)
         cs = SymSeq.of(chars) if not isinstance(chars, SymSeq) else chars
         if not cs.is_concrete():
             raise Unsupported("strip with symbolic character set")
@@ -1186,7 +1194,7 @@ class SymSeq:
         a, b = 0, len(items)
         if left:
             while a < b:
-                c = self._blank_cond(items[a], chars)
+                c = self._blank_cond(items[a], chars, "left")
                 if c is None:
                     raise Unsupported("strip on non-ascii text")
                 if not bool(c):
@@ -1194,7 +1202,7 @@ class SymSeq:
                 a += 1
         if right:
             while b > a:
-                c = self._blank_cond(items[b - 1], chars)
+                c = self._blank_cond(items[b - 1], chars, "right")
                 if c is None:
                     raise Unsupported("strip on non-ascii text")
                 if not bool(c):
